@@ -80,9 +80,21 @@ def one(ctx, payload, label):
     for label2, buf, v in (("wrong-crc,validate=0", wrong, 0), ("odd-header,validate=1", odd, 1)):
         try:
             mx = RTCMReader.parse(buf, validate=v)
-            sx = mx.serialize()
+        except common.lib_errors():
+            if v == 1:
+                # a parser that refuses a buffer with a foreign preamble / reserved bits is within the property
+                ctx.hit("odd_header_rejected")
+                continue
+            ctx.violation("noncanonical-source-raised", f"{label} [{label2}]: rejected although validation is off",
+                          params)
+            return
         except Exception as e:
             ctx.violation("noncanonical-source-raised", f"{label} [{label2}]: {type(e).__name__}: {e}", params)
+            return
+        try:
+            sx = mx.serialize()
+        except Exception as e:
+            ctx.violation("serialize-raised", f"{label} [{label2}]: serialize() raised {type(e).__name__}: {e}", params)
             return
         ctx.hit("noncanonical_source_checked")
         if mx.payload != payload or sx != want:
